@@ -916,6 +916,7 @@ class client( object ):
 
     def set_attribute_single( self, path, data, elements=1, tag_type=None,
               route_path=None, send_path=None, timeout=None, send=True,
+              data_size=None, # for response data_size estimation (as for the other services)
               sender_context=b'', **kwds ):
         """Convert the supplied tag_type data into USINTs if necessary, and perform the Set Attribute
         Single.  If no/None tag_type supplied, the data is assumed to be SINT/USINT.
@@ -987,6 +988,7 @@ class client( object ):
 
     def write( self, path, data, elements=1, offset=0, tag_type=None,
                route_path=None, send_path=None, timeout=None, send=True,
+               data_size=None, # for response data_size estimation (as for the other services)
                sender_context=b'', **kwds ):
         req			= dotdict()
         seg,elm,cnt		= device.parse_path_elements( path )
